@@ -26,7 +26,8 @@ Alphabet
              process_shutdown} (a component with neither has process_request instead);
              each handler: return | raise RuntimeError | raise HTTPError; exhaustive (no deviation bound).
 
-Bound      quick: N<=3 with <=2 deviations without hooks, N<=1 with all hook stackings (<=2 deviations);
+Bound      quick: N<=3 with <=2 deviations without hooks, N<=1 with all hook stackings and N=2 with the 8
+           single-level stackings (<=2 deviations);
            thorough: N<=3 with <=3 deviations, N=4 with <=2 deviations (routed/unrouted),
            N<=2 with all hook stackings <=2 deviations.
 
@@ -754,12 +755,14 @@ def gen_configs(tier, seed):
                     for target in ('routed', 'unrouted'):
                         out.append(({'stack': stack, 'shape': shape, 'indep': indep, 'target': target, 'reg': 'ctor',
                                      'flavour': 'plain' if stack == 'wsgi' else 'alt', 'hooks': no_hooks, 'seed': seed}, 2))
-    max_n_hooks = 2 if thorough else 1
-    for n in range(0, max_n_hooks + 1):
+    # quick: every stacking for N<=1; for N=2 the eight 'pure' stackings (all hooks on the class or all on
+    # the method, (before, after) counts (1,0) (0,1) (1,1) (2,2)); thorough: every stacking for N<=2
+    pure = [(1, 0, 0, 0), (0, 1, 0, 0), (0, 0, 1, 0), (0, 0, 0, 1), (1, 0, 1, 0), (0, 1, 0, 1), (2, 0, 2, 0), (0, 2, 0, 2)]
+    for n in range(0, 3):
         for shape in itertools.product(_SUBSETS, repeat=n):
             for stack in ('wsgi', 'asgi'):
                 for indep in (True, False):
-                    for hooks in hook_stackings():
+                    for hooks in (hook_stackings() if thorough or n <= 1 else pure):
                         if hooks == no_hooks:
                             continue
                         out.append(({'stack': stack, 'shape': shape, 'indep': indep, 'target': 'routed',
@@ -800,7 +803,8 @@ def check(rep):
         'stacks': ['wsgi', 'asgi (plain and *_async twins with sync decoys)'],
         'independent_middleware': [True, False],
         'targets': ['routed', 'unrouted', 'sink', 'r405'],
-        'hooks': 'all class/method stackings of <=2 before and <=2 after hooks, N<=%d, <=2 deviations' % (2 if thorough else 1),
+        'hooks': ('all 35 class/method stackings of <=2 before and <=2 after hooks, <=2 deviations, N<=%s'
+                  % ('2' if thorough else '1; N=2 with the 8 single-level stackings')),
         'lifespan': 'N<=%d components x {startup, shutdown} subsets, every return/raise assignment (unbounded)' % (4 if thorough else 3),
         'http_configs': len(cfgs), 'lifespan_configs': len(life),
     }
